@@ -7,9 +7,19 @@
 //   width 4: U+40000..=U+FFFFF                      (first byte F1..F3)
 // Slot kinds: 1..4 = symbolic character of that UTF-8 width; 12 = concrete U+00E9 (2 bytes);
 // 13 = concrete BOM U+FEFF (3 bytes); 23 = concrete U+D55C (3 bytes); 14 = concrete U+1F600 (4 bytes).
-// The width of a slot kind is `kind % 10`.
+// 100 + b = the concrete ASCII byte b (1 byte).
+// The width of a slot kind is `slot_width(kind)`.
+#[allow(dead_code)]
+pub(crate) const fn slot_width(kind: usize) -> usize {
+    if kind >= 100 { 1 } else { kind % 10 }
+}
+
 #[allow(dead_code)]
 pub(crate) fn fill_slot(buf: &mut [u8], pos: usize, w: usize) {
+    if w >= 100 {
+        buf[pos] = (w - 100) as u8;
+        return;
+    }
     match w {
         12 => {
             buf[pos] = 0xC3;
@@ -76,7 +86,7 @@ macro_rules! symbolic_text {
         #[allow(unused_assignments, unused_mut)]
         {
             let mut p = 0usize;
-            $( fill_slot(&mut $buf, p, $w); p += $w % 10; )*
+            $( fill_slot(&mut $buf, p, $w); p += slot_width($w); )*
             assert!(p == $n);
         }
     };
